@@ -29,6 +29,7 @@ mod ops_scan;
 mod ops_strleaf;
 mod ops_c06;
 mod ops_inlines;
+mod ops_parse;
 
 pub const COMPONENTS: &[fn(&str, &[String]) -> Option<String>] = &[
     ops_anchors::dispatch,
@@ -43,6 +44,7 @@ pub const COMPONENTS: &[fn(&str, &[String]) -> Option<String>] = &[
     ops_scan::dispatch,
     ops_strleaf::dispatch,
     ops_inlines::dispatch,
+    ops_parse::dispatch,
 ];
 
 #[allow(dead_code)]
